@@ -99,7 +99,14 @@ def run(R, job):
                 elif op == "add":
                     it = a if isinstance(a, (list, tuple, core.TagList, str)) else [a]
                     ok = model(list(it) if not isinstance(it, str) else it, out); exp = ref + out
+                    old_tl, old_items = tl, list(tl)
                     tl = tl + it
+                    # `+` builds a new list: changing the sum must not change the operand (any sequence of operations)
+                    if tl is old_tl:
+                        raise AssertionError("alias")
+                    tl.append("probe"); changed = list(old_tl) != old_items; tl.pop()
+                    if changed:
+                        raise AssertionError("alias")
                 elif op == "radd":
                     it = a if isinstance(a, (list, tuple, str)) else [a]
                     ok = model(list(it) if not isinstance(it, str) else it, out); exp = out + ref
@@ -134,6 +141,10 @@ def run(R, job):
                 raised = False
             except TypeError:
                 raised = True
+            except AssertionError:
+                fails.append({"input": " ; ".join(log) + f" ; {op}(empty or not: {type(a).__name__})", "observed": "`tl + x` returned (or shares its items with) the left operand: changing the sum changed the operand",
+                              "expected": "a new list"})
+                break
             checked += 1
             log.append(f"{op}({ctx.describe(a) if not isinstance(a, (list, tuple)) else repr(type(a).__name__) + ':' + str(len(a))})")
             if raised:
